@@ -10,7 +10,8 @@ fn cfg(d: &mut Dna) -> GenCfg {
     c.trait_pct = 25;
     c.attr_pct = 45;
     c.max_variants = 4;
-    let _ = d;
+    // the variant part of the hash input must tell variants apart whatever discriminants they declare
+    c.disc_pct = if d.chance(40) { 90 } else { 30 };
     c
 }
 
@@ -108,7 +109,7 @@ pub fn behaviour() -> Behaviour {
         cfg,
         adjust: no_adjust,
         render,
-        quick: 1500,
+        quick: 4000,
         thorough: 20000,
         batch: 25,
         assumptions: &["what the variant prefix looks like is not fixed by the statement and not by the oracle"],
